@@ -69,6 +69,12 @@ CHECKS['C18'] = dict(
     note='CPython cross-check on space-only indentation with balanced brackets; stray closing bracket (assert) modelled but not judged',
     ref='6/C18')
 
+CHECKS['C13'] = dict(
+    technique='TLA+ model of interactive-parser handles over a heap (in-place list extension, deep vs shallow copy) model-checked with TLC; every exported behaviour replayed on real InteractiveParser objects and re-validated by a trace specification',
+    text='TLC proves OwnHistory/NoSharing for all fork/feed/copy/as_immutable/as_mutable/accepts sequences within the bound under the code\'s copy discipline and exhibits the counterexample under a shallow one (model sensitivity); every exported behaviour is executed on real parsers of five grammars (inlined left recursion, EBNF star, ?-rule with propagate_positions, placeholders, nesting) and TraceInteractive.tla re-executes it, checking after every operation that each live fork equals a fresh parser fed the history the specification assigns to it (state stack, value stack, token positions, tree meta incl. container_*), that accepts() equals trial feeding and leaves the parser unchanged, and that feed_eof equals parse(); resume_parse is compared with parsing the text without the skipped tokens.',
+    note='bounded: <=3 (4) handles, <=5 (6) operations, 3 token kinds; state compared through digests',
+    ref='6/C13')
+
 NOT_APPLICABLE = []
 
 
